@@ -51,8 +51,10 @@ class StackedObservations(Generic[TObs]):
             self.channels_first, self.stack_dimension, self.stacked_shape, self.repeat_axis = self.compute_stacking(
                 n_stack, observation_space, channels_order
             )
-            low = np.repeat(observation_space.low, n_stack, axis=self.repeat_axis)
-            high = np.repeat(observation_space.high, n_stack, axis=self.repeat_axis)
+            # The frames are stacked one after the other along the stacking axis:
+            # tile the bounds the same way (np.repeat would interleave them)
+            low = np.concatenate([observation_space.low] * n_stack, axis=self.repeat_axis)
+            high = np.concatenate([observation_space.high] * n_stack, axis=self.repeat_axis)
             self.stacked_observation_space = spaces.Box(
                 low=low,
                 high=high,
